@@ -161,7 +161,7 @@ Qed.
 Lemma coord_insert_sum (f : cell -> Z) x l : zsum (map f (coord_insert x l)) = f x + zsum (map f l).
 Proof.
   induction l as [|y l IH]; cbn [coord_insert map zsum]; [reflexivity|].
-  destruct (coord_ltb x y); cbn [map zsum]; [reflexivity|]. rewrite IH. lia.
+  destruct (coord_ltb y x); cbn [map zsum]; [|reflexivity]. rewrite IH. lia.
 Qed.
 Lemma sort_coords_sum (f : cell -> Z) l : zsum (map f (sort_coords l)) = zsum (map f l).
 Proof.
@@ -404,14 +404,15 @@ Proof. unfold coord_ltb. lia. Qed.
 Lemma coord_insert_sorted x : forall l, cle_sorted l -> cle_sorted (coord_insert x l).
 Proof.
   induction l as [|y l IH]; intros Hs; [exact I|]. cbn [coord_insert].
-  destruct (coord_ltb x y) eqn:E.
-  - split; [now apply coord_ltb_asym | exact Hs].
-  - destruct l as [|z l'].
-    + cbn [coord_insert]. split; [exact E | exact I].
+  destruct (coord_ltb y x) eqn:E.
+  - (* y stays first, x goes somewhere behind it *)
+    destruct l as [|z l'].
+    + cbn [coord_insert]. split; [now apply coord_ltb_asym | exact I].
     + destruct Hs as [Hyz Hs]. specialize (IH Hs). cbn [coord_insert] in IH |- *.
-      destruct (coord_ltb x z) eqn:E2.
-      * split; [exact E | exact IH].
+      destruct (coord_ltb z x) eqn:E2.
       * split; [exact Hyz | exact IH].
+      * split; [now apply coord_ltb_asym | exact IH].
+  - split; [exact E | exact Hs].
 Qed.
 Lemma sort_coords_sorted l : cle_sorted (sort_coords l).
 Proof. unfold sort_coords. induction l as [|x l IH]; [exact I|]. cbn [fold_right]. now apply coord_insert_sorted. Qed.
@@ -425,7 +426,7 @@ Proof. apply cle_sorted_ps, sort_coords_sorted. Qed.
 Lemma coord_insert_In x c l : In c (coord_insert x l) <-> c = x \/ In c l.
 Proof.
   induction l as [|y l IH]; cbn [coord_insert In]; [intuition|].
-  destruct (coord_ltb x y); cbn [In]; [intuition|]. rewrite IH. intuition.
+  destruct (coord_ltb y x); cbn [In]; [|intuition]. rewrite IH. intuition.
 Qed.
 Lemma sort_coords_In c l : In c (sort_coords l) <-> In c l.
 Proof.
